@@ -36,7 +36,9 @@ def base_cases(thorough):
   out = []
   for gen, st in ((families.c01_cases(False), step), (families.c02_cases(False), step)):
     by = {}
-    for c in gen: by.setdefault(c.family, []).append(c)
+    for c in gen:
+      if c.family == 'RECORD-FIELD-ORDER': continue      # recorded under C01 (finding F46)
+      by.setdefault(c.family, []).append(c)
     for fam, cs in by.items(): out += cs[::st]
   for kind, prog in named_family():
     out.append(Case('NAMED', prog, ['T'], dbs=semcheck.dbs_ab(2), fact_dbs=semcheck.FACT_DBS_AB[:1], info=dict(named=True)))
